@@ -87,6 +87,7 @@ ALT_ORBITS = {  # second satellite of the same plane for the interleaved-iterato
     "mol-b": (26554000.0, 0.72, 63.4, 350.0, 270.0, 190.0),
     # exact-zero worlds: equatorial (latitude identically 0.0 for Kepler / KeplerNum / Ephem), circular (r_dot is exact zeros
     # mixed with round-off), and an orbit whose FIRST sample sits exactly on its ascending node (one exact zero)
+    "geo": (42164137.0, 0.01, 5.0, 40.0, 60.0, 100.0),  # 24 h orbit for the coarse-step worlds
     "equ": (7000000.0, 0.01, 0.0, 17.0, 23.0, 29.0),
     "circ": (7000000.0, 0.0, 51.6, 17.0, 0.0, 28.0),
     "iss0": (6778137.0, 0.0012, 51.6, 30.0, 0.0, 0.0),
@@ -105,6 +106,7 @@ STATIONS = {  # lat, lon [deg], alt [m] : placed near a ground track so that pas
     "sso": (20.0, 5.0, 200.0),
     "gto": (10.0, -5.0, 50.0),
     "mol": (50.0, 10.0, 300.0),
+    "geo": (10.0, 60.0, 0.0),
     "equ": (5.0, 100.0, 0.0),
     "circ": (35.0, 143.0, 100.0),
     "iss0": (35.0, 143.0, 100.0),
@@ -125,7 +127,14 @@ HIST_OPS = ("F", "A2", "Aev", "X", "O")
 _G = {}
 
 
+def base(key):
+    """'umbra@TOD' -> 'umbra' (Light listener given the documented frame= argument)."""
+    return key.split("@")[0]
+
+
 def ltype(key):
+    if "@" in key:
+        return ltype(base(key)) + "/frame=" + key.split("@")[1]
     if key.startswith("anom"):
         return "Anomaly/" + key.split("-")[1]
     return {
@@ -165,6 +174,8 @@ def _period(orbit):
 def _span(orbit, step, variant=0):
     """(start offset, stop offset) in integer seconds: two revolutions from the epoch (variant 1: another range)."""
     P = _period(orbit)
+    if step >= 3600:
+        return 0, 432000  # coarse sampling (1 h, 3 h, 5 h): five days, a multiple of each step
     if variant == 0:
         # a multiple of every sampling / integration step (the iteration contract for other stops is C08's subject)
         return 0, int(math.ceil(2 * P / 1800.0)) * 1800
@@ -223,6 +234,8 @@ def make_listener(key, station):
     if key.startswith("anom-"):
         _, a, v = key.split("-")
         return L.AnomalyListener(AVALS[v], a)
+    if "@" in key:
+        return L.LightListener(L.LightListener.UMBRA if base(key) == "umbra" else L.LightListener.PENUMBRA, frame=key.split("@")[1])
     if key == "umbra":
         return L.LightListener()
     if key == "penumbra":
@@ -760,7 +773,8 @@ def expected_label(ctx, key, ev, g01, t):
             return head == txt and abs((x - val + 180.0) % 360.0 - 180.0) <= 0.0051
 
         return pred(f"{txt} = {val:.2f} (mod 360)", f)
-    if key in ("umbra", "penumbra"):
+    if base(key) in ("umbra", "penumbra"):
+        key = base(key)
         from beyond.constants import Sun
         from beyond.env.solarsystem import get_body
         from mc.ref import shadow
@@ -815,6 +829,7 @@ def check_closed_forms(ctx, events, t, case):
             mine = mine[::-1]
         # a crossing exactly ON the first sample is reported right after it (0 -> x is a sign change); the closed-form list is (t_lo, t_hi]
         mine = [ev for ev in mine if abs(us_of(ev.date) - min(grid)) > 2]
+        key = base(key)  # the events of a Light listener must not depend on its frame= argument
         if key in ("umbra", "penumbra"):
             ref = shadow_crossings(ctx.orbit, t_lo, t_hi)[key]
             ref = [(x, f"{key.title()} {d}") for x, d in ref]
@@ -828,6 +843,14 @@ def check_closed_forms(ctx, events, t, case):
             name = "node/apsis/anomaly: |event - closed form| / 6 us"
         t.trace()
         # a reference crossing closer than tol to a sample date may legitimately fall into the neighbouring step
+        if ctx.step >= 3600:
+            for ev in mine:
+                x, lab = min(ref, key=lambda r: abs(r[0] - us_of(ev.date) / 1e6)) if ref else (float("inf"), None)
+                dt = abs(us_of(ev.date) / 1e6 - x)
+                if not t.margin(name + " [coarse steps 1-5 h]", dt, tol, case):
+                    t.fail(f"closed-form/time/{lt}/coarse-step", "Kepler events coincide with the closed-form crossings", case, round(x, 6),
+                           us_of(ev.date) / 1e6, f"{key} {lab} orbit {ctx.orbit} step {ctx.step} s: off by {(us_of(ev.date)/1e6 - x)*1e6:+.1f} us")
+            continue
         if len(ref) != len(mine):
             t.fail(f"closed-form/count/{lt}", "Kepler events coincide with the closed-form crossings", case,
                    [[round(x, 6), l] for x, l in ref], [_lab(e) for e in mine], f"orbit {ctx.orbit} step {ctx.step}")
@@ -1479,6 +1502,16 @@ def cases(tier):
             for extra in (["node"], ["anom-mean-3", "apside"]):
                 for calls in (["A", "A"], ["A", "B"], ["B", "A", "A"]):
                     out.append(dict(kind="vislist", orbit=orbit, prop=prop, step=step, kw=kw_name, extra=extra, calls=calls))
+    # coarse sampling of high orbits (bisection from hours down to the microsecond)
+    for orbit, step in (("geo", 18000), ("geo", 3600), ("mol", 10800), ("mol", 18000)):
+        for prop in ("kepler",):
+            for key in ("node", "apside"):
+                out.append(dict(kind="single", orbit=orbit, prop=prop, step=step, mode="range", lset=[key]))
+    # Light listeners given an explicit frame
+    for orbit, step in (("iss", 180),) if quick else (("iss", 180), ("sso", 60), ("mol", 600)):
+        for fr in ("EME2000", "MOD", "TOD", "GCRF"):
+            for b in ("umbra", "penumbra"):
+                out.append(dict(kind="single", orbit=orbit, prop="kepler", step=step, mode="range", lset=[f"{b}@{fr}"]))
     # exact zeros of the watched function
     for orbit, plist in (("equ", ("kepler", "ephem", "num")), ("circ", ("kepler",)), ("iss0", ("kepler", "ephem"))):
         for prop in plist:
@@ -1556,7 +1589,7 @@ def _cost(c):
     lset = c.get("lset") or (["sig0", "max", "mask"] + c.get("extra", []))
     if c["kind"] == "vislist":
         lset = ["sig0", "max", "mask"] + c["extra"]
-    wl = sum(W_MS.get(k, 0.55) for k in lset)
+    wl = sum(W_MS.get(base(k), 0.55) * (1.5 if "@" in k else 1.0) for k in lset)
     revs = (s1 - s0) / _period(orbit)
     events = 2.2 * revs * len(lset)
     per_event = 26 * (PROD_MS[prop] + 0.7 * wl / len(lset)) + 8.0
@@ -1580,7 +1613,7 @@ def _cost(c):
         total = 2 * one_iter + check
     else:
         total = one_iter + check
-        if prop == "kepler" and any(k in ("umbra", "penumbra") for k in lset):
+        if prop == "kepler" and any(base(k) in ("umbra", "penumbra") for k in lset):
             total += (s1 - s0) / 20.0 * 0.08
     return 0.5 * total / 1000.0 + 0.03
 
